@@ -780,6 +780,10 @@ func writeEvidence(c *check, tier string, m *shardResult, nviol int, wall time.D
 	}
 	b, _ := json.MarshalIndent(ev, "", " ")
 	dir := filepath.Join(verifDir, "evidence")
+	if os.Getenv("VERIF_REPO") != "" {
+		// a run against a scratch tree (selftest, seed checks) must never overwrite the evidence of /repo itself
+		dir = filepath.Join(scratchRoot(), "evidence-of-scratch-tree")
+	}
 	os.MkdirAll(dir, 0o755)
 	os.WriteFile(filepath.Join(dir, c.id+".json"), append(b, '\n'), 0o644)
 }
